@@ -3269,6 +3269,121 @@ example : ∃ (W : Nat → Option Tree) (t : Tree) (r : Roster) (n : NNet) (evs 
   have : s = 0 ∨ s = 1 ∨ s = 2 ∨ s = 3 := by omega
   rcases this with rfl | rfl | rfl | rfl <;> decide
 
+/-! #### the two-server network is the N-server network restricted to servers 0 and 1 -/
+
+def Site.idx : Site → Nat
+  | .A => 0
+  | .B => 1
+
+/-- the two-server state as an N-server state: A is server 0, B is server 1 (the messages on their way to one of
+them were sent by the other), every other server is empty and idle -/
+def Net.toN (n : Net) : NNet :=
+  { ovl := fun k => if k = 0 then n.ovl .A else if k = 1 then n.ovl .B else {},
+    inbox := fun k => if k = 0 then (n.inbox .A).map (fun m => (1, m))
+                      else if k = 1 then (n.inbox .B).map (fun m => (0, m)) else [] }
+
+def NetEv.toN : NetEv → NNetEv
+  | .loc s l => .loc s.idx l
+  | .ask s id v => .ask s.idx s.other.idx id v
+  | .deliver s i => .deliver s.idx i
+  | .redeliver s i => .redeliver s.idx i
+  | .drop s i => .drop s.idx i
+
+private theorem nnet_ext {a b : NNet} (h1 : ∀ k, a.ovl k = b.ovl k) (h2 : ∀ k, a.inbox k = b.inbox k) : a = b := by
+  cases a; cases b
+  simp only [NNet.mk.injEq]
+  exact ⟨funext h1, funext h2⟩
+
+private theorem map_eraseIdx' {α β : Type} (f : α → β) : ∀ (l : List α) (i : Nat), (l.eraseIdx i).map f = (l.map f).eraseIdx i
+  | [], _ => by simp
+  | _ :: _, 0 => by simp
+  | a :: l, i + 1 => by simp [List.eraseIdx_cons_succ, map_eraseIdx' f l i]
+
+private theorem three (k : Nat) : k = 0 ∨ k = 1 ∨ (k ≠ 0 ∧ k ≠ 1) := by omega
+
+private theorem handleAt_toN (n : Net) (s : Site) (m : Msg) (rest : List Msg) :
+    (n.handleAt s m rest).toN = (n.toN).handleAt s.idx s.other.idx m (rest.map fun x => (s.other.idx, x)) := by
+  apply nnet_ext
+  · intro k
+    rcases three k with h | h | ⟨h0, h1⟩
+    · subst h; cases s <;> simp [Net.toN, Net.handleAt, NNet.handleAt, upd, updN, Site.idx, Site.other]
+    · subst h; cases s <;> simp [Net.toN, Net.handleAt, NNet.handleAt, upd, updN, Site.idx, Site.other]
+    · cases s <;> simp [Net.toN, Net.handleAt, NNet.handleAt, upd, updN, Site.idx, Site.other, h0, h1]
+  · intro k
+    rcases three k with h | h | ⟨h0, h1⟩
+    · subst h; cases s <;> simp [Net.toN, Net.handleAt, NNet.handleAt, upd, updN, Site.idx, Site.other, Function.comp_def]
+    · subst h; cases s <;> simp [Net.toN, Net.handleAt, NNet.handleAt, upd, updN, Site.idx, Site.other, Function.comp_def]
+    · cases s <;> simp [Net.toN, Net.handleAt, NNet.handleAt, upd, updN, Site.idx, Site.other, h0, h1]
+
+/-- **simulation**: every step of the two-server network is the same step of the N-server network on servers 0 and 1 —
+so the two-server classes of the harness (`net schedule`, `net lossy`) exercise the N-server model too, and the N-server
+theorems specialise to the two-server ones -/
+theorem c06_two_servers_embed (n : Net) (e : NetEv) : (netStep n e).toN = nnetStep n.toN e.toN := by
+  cases e with
+  | loc s l =>
+    apply nnet_ext
+    · intro k
+      rcases three k with h | h | ⟨h0, h1⟩
+      · subst h; cases s <;> simp [Net.toN, netStep, nnetStep, NetEv.toN, upd, updN, Site.idx]
+      · subst h; cases s <;> simp [Net.toN, netStep, nnetStep, NetEv.toN, upd, updN, Site.idx]
+      · cases s <;> simp [Net.toN, netStep, nnetStep, NetEv.toN, upd, updN, Site.idx, h0, h1]
+    · intro k; rfl
+  | ask s id v =>
+    apply nnet_ext
+    · intro k
+      rcases three k with h | h | ⟨h0, h1⟩
+      · subst h; cases s <;> simp [Net.toN, netStep, nnetStep, NetEv.toN, upd, updN, Site.idx, Site.other]
+      · subst h; cases s <;> simp [Net.toN, netStep, nnetStep, NetEv.toN, upd, updN, Site.idx, Site.other]
+      · cases s <;> simp [Net.toN, netStep, nnetStep, NetEv.toN, upd, updN, Site.idx, Site.other, h0, h1]
+    · intro k
+      rcases three k with h | h | ⟨h0, h1⟩
+      · subst h
+        cases s
+        · by_cases hw : (n.ovl .A).wouldRequest id = true <;> simp [Net.toN, netStep, nnetStep, NetEv.toN, Site.idx, Site.other, upd, updN, hw]
+        · by_cases hw : (n.ovl .B).wouldRequest id = true <;> simp [Net.toN, netStep, nnetStep, NetEv.toN, Site.idx, Site.other, upd, updN, hw]
+      · subst h
+        cases s
+        · by_cases hw : (n.ovl .A).wouldRequest id = true <;> simp [Net.toN, netStep, nnetStep, NetEv.toN, Site.idx, Site.other, upd, updN, hw]
+        · by_cases hw : (n.ovl .B).wouldRequest id = true <;> simp [Net.toN, netStep, nnetStep, NetEv.toN, Site.idx, Site.other, upd, updN, hw]
+      · cases s
+        · by_cases hw : (n.ovl .A).wouldRequest id = true <;> simp [Net.toN, netStep, nnetStep, NetEv.toN, Site.idx, Site.other, upd, updN, hw, h0, h1]
+        · by_cases hw : (n.ovl .B).wouldRequest id = true <;> simp [Net.toN, netStep, nnetStep, NetEv.toN, Site.idx, Site.other, upd, updN, hw, h0, h1]
+  | deliver s i =>
+    simp only [netStep, nnetStep, NetEv.toN]
+    have hin : (n.toN).inbox s.idx = (n.inbox s).map (fun x => (s.other.idx, x)) := by
+      cases s <;> simp [Net.toN, Site.idx, Site.other]
+    rw [hin, List.getElem?_map]
+    cases hg : (n.inbox s)[i]? with
+    | none => simp
+    | some m =>
+      simp only [Option.map_some]
+      rw [handleAt_toN, map_eraseIdx']
+  | redeliver s i =>
+    simp only [netStep, nnetStep, NetEv.toN]
+    have hin : (n.toN).inbox s.idx = (n.inbox s).map (fun x => (s.other.idx, x)) := by
+      cases s <;> simp [Net.toN, Site.idx, Site.other]
+    rw [hin, List.getElem?_map]
+    cases hg : (n.inbox s)[i]? with
+    | none => simp
+    | some m =>
+      simp only [Option.map_some]
+      rw [handleAt_toN]
+  | drop s i =>
+    apply nnet_ext
+    · intro k; rfl
+    · intro k
+      rcases three k with h | h | ⟨h0, h1⟩
+      · subst h; cases s <;> simp [Net.toN, netStep, nnetStep, NetEv.toN, upd, updN, Site.idx, map_eraseIdx']
+      · subst h; cases s <;> simp [Net.toN, netStep, nnetStep, NetEv.toN, upd, updN, Site.idx, map_eraseIdx']
+      · cases s <;> simp [Net.toN, netStep, nnetStep, NetEv.toN, upd, updN, Site.idx, h0, h1]
+
+theorem c06_two_servers_embed_run (n : Net) (evs : List NetEv) :
+    (netRun n evs).toN = nnetRun n.toN (evs.map NetEv.toN) := by
+  unfold netRun nnetRun
+  induction evs generalizing n with
+  | nil => rfl
+  | cons e rest ih => simp only [List.foldl_cons, List.map_cons]; rw [ih, c06_two_servers_embed]
+
 /-! ### the code regions the model stands for
 Regenerated from /repo's source on every run (`harness/cmd/astfacts` → `OnetVerif/Shapes.lean`): the
 calls that matter for synchronisation and data flow, the lock regions and (for decision logic) the
